@@ -37,8 +37,9 @@ ASSUMPTIONS = [
     "arithmetic (new step dt/ceil(dt/target) resp. dt*floor(target/dt*(1+1e-9))) and additionally m_j < npts/2: a component at or "
     "above the OLD Nyquist index is aliased in the input itself and cannot be reproduced by any resampler; 1 to 3 components, "
     "|c| in [1e-3, 1e3]; 'exactly' = 1e-9*sum|c| at the instants i*new_dt of the returned signal (FFT rounding is ~1e-15*sum|c|)",
-    "known finding C14-KF1 (matcher incommensurate: len(out)*k != npts for decimation by k, len(out) != k*npts for refinement by "
-    "k, i.e. len(out)*new_dt != npts*dt): SciPy spaces the samples at npts*dt/len(out), not at the reported step; there the "
+    "known finding C14-KF1 (matcher: incommensurate - len(out)*k != npts for decimation by k, len(out) != k*npts for refinement by "
+    "k - AND forced by the statement's own rules: k does not divide npts, or an even length was requested for an odd product; an "
+    "avoidable incommensurate length stays a violation): SciPy spaces the samples at npts*dt/len(out), not at the reported step; there the "
     "reproduction is asserted on the instants i*npts*dt/len(out) (when every m_j < len(out)/2) and step / ratio / length / "
     "evenness rules stay enforced; every commensurate case is asserted strictly",
 ]
@@ -453,7 +454,16 @@ def fourier_rule(case, ctx):
     ctx.notes["err/tol"] = err / tol
     if err <= tol:
         return
-    if not commensurate and ctx.kf("C14-KF1"):
+    # the known finding covers incommensurability that the statement's own rules FORCE: a decimation factor that does not
+    # divide the record length, or an even length requested for an odd product k*npts.  Where a commensurate length exists
+    # and is allowed (integer refinement / unchanged step with even=False, or an even product; decimation with k | npts and
+    # npts/k even or even=False) an incommensurate answer is a different defect and stays a violation.
+    if mode == "decimate":
+        forced = npts % k != 0 or (even and (npts // k) % 2 == 1)
+    else:
+        forced = even and (k * npts) % 2 == 1
+    ctx.cls("kf-forced" if (forced and not commensurate) else None)
+    if not commensurate and forced and ctx.kf("C14-KF1"):
         if all(2 * m < n_out for m in m_list):
             ctx.cls("kf-regrid-checked")
             ctx.close(y, _tones_exact_grid(comps, m_list, n_out), tol,
